@@ -592,6 +592,196 @@ def thread_none_tests(fn: ast.AST) -> bool:
     return changed
 
 
+def _module_sentinels(mod) -> Dict[str, Set[str]]:
+    """{S: names of the functions that can hand S out} for every module-level `S = object()` that the module only ever
+    (a) compares by identity or (b) returns from a function (directly or as an arm of a returned conditional expression).
+    Any other use (stored, passed on, put into a container) and S is left out: then nothing is concluded from it."""
+    cached = getattr(mod, "_vt_sentinels", None)
+    if cached is not None:
+        return cached
+    out: Dict[str, Set[str]] = {}
+    cands = set()
+    for st in mod.tree.body:
+        tgt = st.targets[0] if isinstance(st, ast.Assign) and len(st.targets) == 1 else getattr(st, "target", None) if isinstance(st, ast.AnnAssign) else None
+        v = getattr(st, "value", None)
+        if isinstance(tgt, ast.Name) and isinstance(v, ast.Call) and isinstance(v.func, ast.Name) and v.func.id == "object" and not v.args and not v.keywords:
+            cands.add(tgt.id)
+    for S in cands:
+        stores = [n for n in ast.walk(mod.tree) if isinstance(n, ast.Name) and n.id == S and not isinstance(n.ctx, ast.Load)]
+        if len(stores) != 1:
+            continue
+        ok_ids = set()
+        carriers: Set[str] = set()
+        for n in ast.walk(mod.tree):
+            if isinstance(n, ast.Compare) and all(isinstance(o, (ast.Is, ast.IsNot)) for o in n.ops):
+                for x in [n.left] + n.comparators:
+                    if isinstance(x, ast.Name) and x.id == S:
+                        ok_ids.add(id(x))
+        def returned_arms(e, acc):
+            if isinstance(e, ast.IfExp):
+                returned_arms(e.body, acc)
+                returned_arms(e.orelse, acc)
+            elif isinstance(e, ast.Name) and e.id == S:
+                acc.append(e)
+        for f in ast.walk(mod.tree):
+            if isinstance(f, (ast.FunctionDef, ast.AsyncFunctionDef)):
+                for r in ast.walk(f):
+                    if isinstance(r, ast.Return) and r.value is not None:
+                        acc: List[ast.AST] = []
+                        returned_arms(r.value, acc)
+                        if acc:
+                            carriers.add(f.name)
+                            ok_ids |= {id(a) for a in acc}
+        loads = [n for n in ast.walk(mod.tree) if isinstance(n, ast.Name) and n.id == S and isinstance(n.ctx, ast.Load)]
+        if all(id(n) in ok_ids for n in loads):
+            out[S] = carriers
+    try:
+        mod._vt_sentinels = out
+    except Exception:
+        pass
+    return out
+
+
+def thread_sentinel_tests(fn: ast.AST, sentinels: Dict[str, Set[str]]) -> bool:
+    """after a helper that answers with a module-level sentinel S ("nothing to do") was expanded in assign mode:
+         if C: _ret__h = S               if C: T = S
+         else: BODY; _ret__h = X   ==>   else: BODY; T = X; ACTION
+         T = _ret__h
+         if T is not S: ACTION
+    Each leaf gets the outcome of the identity test that its own value decides: S itself fails it; a value that cannot be S
+    (a constant, a display, a call of a function that does not hand S out, a local only ever bound to such values) passes
+    it; anything else keeps the test.  Rewrites in place."""
+    changed = False
+
+    def free_of(val: ast.AST, S: str, depth: int = 0) -> bool:
+        if any(isinstance(x, ast.Name) and x.id == S for x in ast.walk(val)):
+            return False
+        if isinstance(val, (ast.Constant, ast.List, ast.Dict, ast.Set, ast.Tuple, ast.ListComp, ast.DictComp, ast.SetComp, ast.JoinedStr, ast.BinOp, ast.Compare, ast.BoolOp)) \
+                and not isinstance(val, ast.BoolOp):
+            return True
+        if isinstance(val, ast.Call):
+            f = val.func
+            nm = f.id if isinstance(f, ast.Name) else f.attr if isinstance(f, ast.Attribute) else None
+            return nm is not None and nm not in sentinels[S] and nm not in ("getattr", "next", "iter", "eval")
+        if isinstance(val, ast.Name) and depth < 2:
+            binds = [a for a in ast.walk(fn) if isinstance(a, ast.Assign) and any(isinstance(t, ast.Name) and t.id == val.id for t in a.targets)]
+            others = [n for n in ast.walk(fn) if isinstance(n, ast.Name) and n.id == val.id and isinstance(n.ctx, ast.Store)]
+            params = {a.arg for a in ast.walk(fn) if isinstance(a, ast.arg)}
+            return bool(binds) and len(binds) == len(others) and val.id not in params and all(free_of(a.value, S, depth + 1) for a in binds)
+        return False
+
+    def visit(block: List[ast.stmt]) -> None:
+        nonlocal changed
+        i = 0
+        while i < len(block):
+            st = block[i]
+            a1 = block[i + 1] if i + 1 < len(block) else None
+            t1 = block[i + 2] if i + 2 < len(block) else None
+            if isinstance(st, ast.If) and st.orelse and isinstance(a1, ast.Assign) and len(a1.targets) == 1 and isinstance(a1.targets[0], ast.Name) \
+                    and isinstance(a1.value, ast.Name) and a1.value.id.startswith("_ret__") and isinstance(t1, ast.If) \
+                    and isinstance(t1.test, ast.Compare) and len(t1.test.ops) == 1 and isinstance(t1.test.ops[0], (ast.Is, ast.IsNot)) \
+                    and isinstance(t1.test.left, ast.Name) and t1.test.left.id == a1.targets[0].id and isinstance(t1.test.comparators[0], ast.Name) \
+                    and t1.test.comparators[0].id in sentinels:
+                S = t1.test.comparators[0].id
+                tmp, tgt = a1.value.id, a1.targets[0].id
+                rest = block[i + 3:]
+                if_is = list(t1.body) if isinstance(t1.test.ops[0], ast.Is) else list(t1.orelse)
+                if_not = list(t1.orelse) if isinstance(t1.test.ops[0], ast.Is) else list(t1.body)
+
+                def finish(branch: List[ast.stmt]) -> Optional[List[ast.stmt]]:
+                    if not branch:
+                        return None
+                    last = branch[-1]
+                    if isinstance(last, ast.Assign) and len(last.targets) == 1 and isinstance(last.targets[0], ast.Name) and last.targets[0].id == tmp:
+                        val = last.value
+                        if isinstance(val, ast.IfExp):
+                            b_ = finish([ast.copy_location(ast.Assign([ast.Name(tmp, ast.Store())], val.body), last)])
+                            e_ = finish([ast.copy_location(ast.Assign([ast.Name(tmp, ast.Store())], val.orelse), last)])
+                            if b_ is None or e_ is None:
+                                return None
+                            return branch[:-1] + [ast.copy_location(ast.If(val.test, b_, e_), last)]
+                        head = branch[:-1] + [ast.copy_location(ast.Assign([ast.Name(tgt, ast.Store())], val), last)]
+                        if isinstance(val, ast.Name) and val.id == S:
+                            return head + copy.deepcopy(if_is) + copy.deepcopy(rest)
+                        if free_of(val, S):
+                            return head + copy.deepcopy(if_not) + copy.deepcopy(rest)
+                        return head + [copy.deepcopy(t1)] + copy.deepcopy(rest)
+                    if isinstance(last, ast.If) and last.orelse:
+                        b_, e_ = finish(list(last.body)), finish(list(last.orelse))
+                        if b_ is None or e_ is None:
+                            return None
+                        return branch[:-1] + [ast.copy_location(ast.If(last.test, b_, e_), last)]
+                    if isinstance(last, ast.Raise):
+                        return branch
+                    return None
+
+                nb, ne = finish(list(st.body)), finish(list(st.orelse))
+                if nb is not None and ne is not None and not any(isinstance(x, ast.Name) and x.id == tmp for s_ in rest + t1.body + t1.orelse for x in ast.walk(s_)):
+                    new_if = ast.copy_location(ast.If(st.test, nb, ne), st)
+                    ast.fix_missing_locations(new_if)
+                    block[i:] = [new_if]
+                    changed = True
+                    visit(new_if.body)
+                    visit(new_if.orelse)
+                    return
+            for fld in ("body", "orelse", "finalbody"):
+                sub = getattr(st, fld, None)
+                if isinstance(sub, list) and sub and isinstance(sub[0], ast.stmt) and not isinstance(st, (ast.FunctionDef, ast.AsyncFunctionDef, ast.ClassDef)):
+                    visit(sub)
+            if isinstance(st, ast.Try):
+                for h in st.handlers:
+                    visit(h.body)
+            i += 1
+
+    visit(fn.body)
+    return changed
+
+
+def _split_selected_source(stmts: List[ast.stmt], is_inlinable_generator, fn_loads: Dict[str, int]) -> Optional[List[ast.stmt]]:
+    """`F = A; if C: F = B[F]; for T in F: BODY`  /  `F = A if C else B; for T in F: BODY`  (consecutive statements, F a local read
+    nowhere else, A and B calls that only create iterators) is `if C: for T in B[A]: BODY  else: for T in A: BODY`: which
+    iterator the loop runs over is decided before the loop starts either way.  Done only when one of the sources is a generator
+    of the module that can then be expanded into the loop."""
+    for i, st in enumerate(stmts):
+        if not (isinstance(st, ast.Assign) and len(st.targets) == 1 and isinstance(st.targets[0], ast.Name)):
+            continue
+        f = st.targets[0].id
+        a = b = cond = None
+        j = i + 1
+        if isinstance(st.value, ast.IfExp):
+            cond, b, a = st.value.test, st.value.body, st.value.orelse
+        elif j < len(stmts) and isinstance(stmts[j], ast.If) and not stmts[j].orelse and len(stmts[j].body) == 1 and isinstance(stmts[j].body[0], ast.Assign) \
+                and len(stmts[j].body[0].targets) == 1 and isinstance(stmts[j].body[0].targets[0], ast.Name) and stmts[j].body[0].targets[0].id == f:
+            a, cond, b = st.value, stmts[j].test, stmts[j].body[0].value
+            j += 1
+        if a is None or j >= len(stmts):
+            continue
+        loop = stmts[j]
+        if not (isinstance(loop, ast.For) and not loop.orelse and isinstance(loop.iter, ast.Name) and loop.iter.id == f):
+            continue
+        if not (isinstance(a, ast.Call) and isinstance(b, ast.Call)) or any(isinstance(n, ast.Name) and n.id == f for n in ast.walk(cond)):
+            continue
+        # F is read only as the loop's iterable and inside B (where it stands for A)
+        inner = sum(1 for n in ast.walk(b) if isinstance(n, ast.Name) and n.id == f and isinstance(n.ctx, ast.Load)) if not isinstance(st.value, ast.IfExp) else 0
+        if fn_loads.get(f, 0) != 1 + inner or any(isinstance(n, ast.Name) and n.id == f for n in ast.walk(a)):
+            continue
+        if any(isinstance(n, ast.Name) and n.id == f for x in loop.body for n in ast.walk(x)):
+            continue
+
+        class R(ast.NodeTransformer):
+            def visit_Name(self, n):
+                return copy.deepcopy(a) if n.id == f and isinstance(n.ctx, ast.Load) else n
+        b2 = R().visit(copy.deepcopy(b)) if inner else copy.deepcopy(b)
+        if not (is_inlinable_generator(b2) or is_inlinable_generator(a)):
+            continue
+        l1 = ast.copy_location(ast.For(copy.deepcopy(loop.target), b2, copy.deepcopy(loop.body), []), loop)
+        l2 = ast.copy_location(ast.For(copy.deepcopy(loop.target), copy.deepcopy(a), copy.deepcopy(loop.body), []), loop)
+        new = ast.copy_location(ast.If(copy.deepcopy(cond), [l1], [l2]), st)
+        ast.fix_missing_locations(new)
+        return stmts[:i] + [new] + stmts[j + 1:]
+    return None
+
+
 def _thin_generators(mod) -> Dict[str, Tuple[str, List[str]]]:
     """single-record readers R that a generator G of the module wraps one to one:
     `def G(a, b): while True: v = R(a, b); if v is None: return; yield v`  ->  {R: (G, [a, b])}.
@@ -683,7 +873,10 @@ class Expander:
         if h.args.vararg or h.args.kwarg:
             return None
         inner = [n for n in ast.walk(h) if n is not h]
-        if any(isinstance(n, (ast.Global, ast.Nonlocal, ast.FunctionDef, ast.AsyncFunctionDef, ast.ClassDef)) for n in inner):
+        if any(isinstance(n, (ast.Global, ast.Nonlocal, ast.AsyncFunctionDef, ast.ClassDef)) for n in inner):
+            return None
+        # a nested `def f(..): return EXPR` directly in the helper's body is a lambda bound to a local (rewritten as such after the expansion)
+        if any(isinstance(n, ast.FunctionDef) and not (n in h.body and _local_def_as_lambda(n) is not None) for n in inner):
             return None
         is_gen = any(isinstance(n, (ast.Yield, ast.YieldFrom)) for n in inner)
         if is_gen != generator:
@@ -734,6 +927,7 @@ class Expander:
         body = list(h.body)
         if body and isinstance(body[0], ast.Expr) and isinstance(body[0].value, ast.Constant) and isinstance(body[0].value.value, str):
             body = body[1:]
+        body = [x for st in body for x in ((_local_def_as_lambda(st) or [st]) if isinstance(st, ast.FunctionDef) else [st])]
         returns = [n for st in body for n in ast.walk(st) if isinstance(n, ast.Return)]
         ret_expr: Optional[ast.AST] = None
         if mode != "return":
@@ -946,6 +1140,12 @@ class Expander:
 
     def _block(self, stmts: List[ast.stmt], cls: Optional[str], caller_names: Set[str], stack: Tuple[str, ...], changed: List[bool]) -> List[ast.stmt]:
         out: List[ast.stmt] = []
+        if any(isinstance(st, ast.For) and isinstance(st.iter, ast.Name) for st in stmts):
+            split = _split_selected_source(stmts, lambda c: isinstance(c, ast.Call) and self._resolve(c, cls, False, stack, generator=True) is not None,
+                                           getattr(self, "_load_counts", {}))
+            if split is not None:
+                stmts = split
+                changed[0] = True
         for st in stmts:
             rep: Optional[List[ast.stmt]] = None
             if isinstance(st, ast.Return) and st.value is not None:
@@ -1108,6 +1308,9 @@ class Expander:
                 self._locals = {}
                 if changed[0] and any(isinstance(n_, ast.Name) and n_.id.startswith("_ret__") for n_ in ast.walk(work)):
                     thread_none_tests(work)
+                    sent = _module_sentinels(self.mod)
+                    if sent:
+                        thread_sentinel_tests(work, sent)
                 if not changed[0]:
                     break
                 any_change = True
